@@ -1,8 +1,8 @@
 (* GENERATED on every run by lib/c12_facts.py from the current /repo/scnr/src text. Do not edit.
    Each definition is a premise of the isolation model (Iter.v, Scratch.v) read off the source. *)
 From Coq Require Import Bool.
-(* fields of ScannerImpl are ['character_classes', 'scanner_modes', 'match_char_class', 'current_mode', 'last_plain_token']; the model knows ['character_classes', 'scanner_modes', 'match_char_class', 'current_mode'] (a new field is state the model does not have) *)
-Definition scanner_impl_fields_are_the_modelled_state : bool := false.
+(* fields of ScannerImpl are ['character_classes', 'scanner_modes', 'match_char_class', 'current_mode']; the model knows ['character_classes', 'scanner_modes', 'match_char_class', 'current_mode'] (a new field is state the model does not have) *)
+Definition scanner_impl_fields_are_the_modelled_state : bool := true.
 (* ScannerImpl must not contain Rc/RefCell/Cell/Mutex/RwLock/atomics/lazies: [] *)
 Definition scanner_impl_has_no_interior_mutability : bool := true.
 (* ScannerImpl must derive Clone (deep copy per iterator) *)
@@ -41,8 +41,8 @@ Definition scanner_owns_its_scanner_impl : bool := true.
 Definition find_iter_clones_the_scanner_impl : bool := true.
 (* FindMatchesImpl::new must call scanner_impl.reset() *)
 Definition iterator_constructor_resets_the_mode : bool := true.
-(* ScannerImpl::reset must be exactly `self.current_mode = 0;` (the model resets nothing else, there is nothing else): '{\n        self.current_mode = 0;\n        self.last_plain_token = None;\n    }\n' *)
-Definition reset_sets_mode_zero : bool := false.
+(* ScannerImpl::reset must be exactly `self.current_mode = 0;` (the model resets nothing else, there is nothing else): '{\n        self.current_mode = 0;\n    }\n' *)
+Definition reset_sets_mode_zero : bool := true.
 (* find_from must clear current_states, push the start state and clear next_states before its loop (Scratch.v: clear_at_entry = true) *)
 Definition find_from_clears_its_scratch_vectors_at_entry : bool := true.
 (* every round of find_from must end with current_states.clear(); swap(current_states, next_states) (Scratch.v sim_st) *)
